@@ -120,11 +120,21 @@ theorem tamper_repaired_complete (A : AEAD) (hlen : ∀ k n m, (A.sealSeg k n m)
 /-- **tamper_prefix_sequential.** The same prefix guarantee for tink-go's sequential reader (used when the
 inner store's reader cannot seek). -/
 theorem tamper_prefix_sequential (A : AEAD) (css key : Nat) (pre : Bytes) (pt : Bytes) (keyOf : Bytes → Nat) (h56 : 56 < css)
-    (ideal : IdealFor A key pre (segments css pt)) (fixEof : Bool) (ct : Bytes) :
-    match seqRead A keyOf fixEof css ct with
+    (ideal : IdealFor A key pre (segments css pt)) (fixEof : Bool) (ct : Bytes) (guard : Bool) :
+    match seqRead A keyOf fixEof css ct guard with
     | .ok out => IsPrefix out pt
     | .err sofar => IsPrefix sofar pt := by
-  have := seqRead_prefix A key pre (segments css pt) keyOf ideal fixEof css ct
+  have := seqRead_prefix A key pre (segments css pt) keyOf ideal fixEof css ct guard
+  rw [segments_flatten css pt h56] at this
+  exact this
+
+/-- **tamper_repaired_complete_sequential.** With the envelope repair and the byte-counting guard
+(fixes/C16-sequential-reader-rejects-cut-streams.patch) the sequential path is complete as well: whatever
+bytes are presented, a read that ends without error has delivered exactly the plaintext. -/
+theorem tamper_repaired_complete_sequential (A : AEAD) (css key : Nat) (pre : Bytes) (pt : Bytes) (keyOf : Bytes → Nat)
+    (h56 : 56 < css) (ideal : IdealFor A key pre (segments css pt)) (ct out : Bytes)
+    (hok : seqRead A keyOf true css ct true = .ok out) : out = pt := by
+  have := seqRead_guarded_complete A key pre (segments css pt) keyOf ideal css ct out hok
   rw [segments_flatten css pt h56] at this
   exact this
 
@@ -231,6 +241,12 @@ took that byte as look-ahead, opened the first segment as "not last", and on the
 theorem sequential_cut_behind_boundary_reads_short :
     seqRead toyAead (fun _ => 7) false 72 (wstream.take 73) = .ok (wpt.take 16) ∧
     seqRead toyAead (fun _ => 7) false 72 (wstream.take 40) = .ok [] := by
+  decide
+
+/-- … both are errors with the byte-counting guard. -/
+theorem guarded_sequential_rejects_both :
+    seqRead toyAead (fun _ => 7) false 72 (wstream.take 73) true = .err (wpt.take 16) ∧
+    seqRead toyAead (fun _ => 7) false 72 (wstream.take 40) true = .err [] := by
   decide
 
 /-- **Witness 4 (tink.go).** A stored stream cut to nothing, or to just its 4 length bytes, is taken for an
